@@ -124,7 +124,8 @@ def origin(annotation: tp.Any) -> tp.Any:
     if not isbuiltintype(actual):
         actual = _check_generics(actual)
 
-    if iscallable(actual):
+    # (A user class which defines `__call__` is still that class, not "a callable".)
+    if iscallable(actual) and (not inspect.isclass(actual) or actual is abc_Callable):
         actual = tp.Callable
 
     return actual
